@@ -535,10 +535,10 @@ fn zone_patterns(tier: Tier) -> Vec<Vec<(f64, f64, f64)>> {
 
 pub fn trains() -> Vec<TrainSpec> {
     vec![
-        TrainSpec { n_loaded: 10, n_empty: 0, davis: false, mass_override: None, length_override: None, consist: 2 },
-        TrainSpec { n_loaded: 30, n_empty: 30, davis: true, mass_override: None, length_override: None, consist: 3 },
+        TrainSpec { n_loaded: 10, n_empty: 0, davis: false, mass_override: None, length_override: None, consist: 2, cd_vec: false },
+        TrainSpec { n_loaded: 30, n_empty: 30, davis: true, mass_override: None, length_override: None, consist: 3, cd_vec: false },
         // heavy train, weak dynamic brake: 60 loaded cars behind one conventional locomotive
-        TrainSpec { n_loaded: 60, n_empty: 0, davis: false, mass_override: None, length_override: None, consist: 0 },
+        TrainSpec { n_loaded: 60, n_empty: 0, davis: false, mass_override: None, length_override: None, consist: 0, cd_vec: false },
     ]
 }
 
@@ -610,6 +610,10 @@ pub fn explore(ctx: &mut Ctx, which: &'static str) {
     for c in cases(ctx.tier) {
         // C07/C11/C12 ride on the whole-path and link-by-link runs (and timed rows for C07/C12)
         if which != "C03" {
+            // the sign-flagged speed variants concern the speed controller only
+            if c.neg != 0 {
+                continue;
+            }
             match (&c.mode, which) {
                 (Mode::EstTimes, _) => continue,
                 (Mode::Timed { .. }, "C11") => continue,
